@@ -138,6 +138,12 @@ class VC:
     def ensure(self, label, f):
         self.clauses.append((label, f))
 
+    def cardinality_abstraction_is_exact(self, why):
+        """the harness states (with a reason recorded in the evidence) that on its paths the uninterpreted cardinality is pinned
+        down by other axioms (e.g. a bijective enumeration of an ARBITRARY set), so counter-models are not downgraded"""
+        self.path.exact_card = True
+        self.path.notes.add("cardinality abstraction declared exact: " + why)
+
     def must(self, f):
         return self.path.must(to_z3(f))
 
@@ -235,6 +241,20 @@ class VC:
         return isinstance(obj, Obj) and self.repo.is_subclass(obj.cls, ci)
 
 
+def _int_consts(e, acc, seen=None):
+    seen = seen if seen is not None else set()
+    if e.get_id() in seen:
+        return acc
+    seen.add(e.get_id())
+    if z3.is_const(e) and e.decl().kind() == z3.Z3_OP_UNINTERPRETED and z3.is_int(e):
+        acc[e.get_id()] = e
+    for c in e.children():
+        _int_consts(c, acc, seen)
+    if z3.is_quantifier(e):
+        _int_consts(e.body(), acc, seen)
+    return acc
+
+
 def _check(path, f):
     """status of `pc AND NOT f`"""
     t0 = time.time()
@@ -244,6 +264,24 @@ def _check(path, f):
     try:
         s.add(z3.Not(to_z3(f)) if not isinstance(f, bool) else z3.BoolVal(not f))
         r = str(s.check())
+        if r == "unknown":
+            # counter-model search in a small sub-domain: every integer constant of the query within [-1, 8].  A model found
+            # there is a model of the unrestricted query (the bounds only remove models), so `sat` is definitive
+            consts = {}
+            for a in s.assertions():
+                _int_consts(a, consts)
+            s.push()
+            try:
+                for c in consts.values():
+                    s.add(c >= -1, c <= 8)
+                s.set(timeout=min(SOLVER_TIMEOUT_MS, 15000))
+                if str(s.check()) == "sat":
+                    r = "sat"
+                    model = s.model()
+                    return r, model, "", time.time() - t0, "z3 (bounded counter-model search after unknown)"
+            finally:
+                s.pop()
+                s.set(timeout=SOLVER_TIMEOUT_MS)
         model = s.model() if r == "sat" else None
         reason = s.reason_unknown() if r == "unknown" else ""
         smt2 = s.to_smt2() if r == "unknown" else None
@@ -384,7 +422,12 @@ def run_obligation(obl: Obl, repo_root=None):
                 rec["solver_time_s"] += dt
                 if backend != "z3":
                     cr.backend = backend
-                if r == "sat":
+                if r == "sat" and any(n.startswith("ABSTRACT-CARD") for n in path.notes) and not getattr(path, "exact_card", False):
+                    # the counter-model lives in an incomplete abstraction (uninterpreted cardinality): possibly spurious
+                    if cr.status != "refuted":
+                        cr.status = "undecided"
+                        cr.reason = "sat on a path that uses the uninterpreted cardinality abstraction (possibly spurious counter-model)"
+                elif r == "sat":
                     cr.status = "refuted"
                     m2 = _small_model(path, f, vc.inputs) or model
                     cr.model = {"inputs": _dump_inputs(m2, vc.inputs), "decisions": list(path.decisions),
